@@ -15,6 +15,7 @@ def build(u):
     u.ghost_callees["m:send"] = "Tracked(w)"
     u.raw("use vstd::prelude::*;\nuse ::std::sync::Arc;\nverus! {\n")
     u.env("prelude.rs")
+    u.env("std_extra.rs")
     u.canary_decls()
     u.env("anyhow.rs")
     u.env("logwriter_env.rs")
